@@ -208,8 +208,8 @@ thread_local! {
 static DIR_SEQ: AtomicU64 = AtomicU64::new(0);
 const T: Duration = Duration::from_secs(12);
 
-trait Io: tokio::io::AsyncRead + tokio::io::AsyncWrite + Unpin + Send {}
-impl<S: tokio::io::AsyncRead + tokio::io::AsyncWrite + Unpin + Send> Io for S {}
+trait Io: tokio::io::AsyncRead + tokio::io::AsyncWrite + Unpin + Send + Sync {}
+impl<S: tokio::io::AsyncRead + tokio::io::AsyncWrite + Unpin + Send + Sync> Io for S {}
 
 /// harness trouble (not an outcome of the code): the whole case is reported as `(L (N 93) what)` and run again by the runner
 struct Trouble(String);
@@ -652,7 +652,9 @@ fn whost_id(h: &Host) -> u128 {
     h.options.get_public_data_dir().rsplit('h').next().and_then(|d| d.parse().ok()).expect("marker directory")
 }
 
-fn wire(x: &X) -> X {
+/// `clients`: hosts.wire2 — the second element is a list of histories, one per client; the clients run concurrently
+/// against the same server, each over its own connections.
+fn wire(x: &X, clients: bool) -> X {
     let l = match x.as_l() {
         Some(l) if l.len() == 2 => l,
         _ => return X::bad(),
@@ -661,12 +663,24 @@ fn wire(x: &X) -> X {
         Ok(c) => c,
         Err(e) => return e,
     };
-    let mut reqs = Vec::new();
-    for r in match l[1].as_l() { Some(r) => r, None => return X::bad() } {
-        match parse_wreq(r) {
-            Ok(r) => reqs.push(r),
-            Err(e) => return e,
+    let histories: Vec<&X> = if clients {
+        match l[1].as_l() {
+            Some(h) => h.iter().collect(),
+            None => return X::bad(),
         }
+    } else {
+        vec![&l[1]]
+    };
+    let mut all_reqs = Vec::new();
+    for h in histories {
+        let mut reqs = Vec::new();
+        for r in match h.as_l() { Some(r) => r, None => return X::bad() } {
+            match parse_wreq(r) {
+                Ok(r) => reqs.push(r),
+                Err(e) => return e,
+            }
+        }
+        all_reqs.push(reqs);
     }
     // fixture tree: <dir>/h<idx>/public-h<idx>/{f.txt,g.txt}; a host that shares the path of host 0: <dir>/h0/public-h<idx>/..
     let dir = format!("{}/kvh-c15-{}-{}/", std::env::temp_dir().display(), std::process::id(), DIR_SEQ.fetch_add(1, Ordering::Relaxed));
@@ -727,20 +741,29 @@ fn wire(x: &X) -> X {
     }
     let coll = COLL.with(|c| c.borrow_mut().take().unwrap());
     let out: R<Vec<X>> = rt().block_on(async move {
-        let mut client = Client {
-            desc_plain: Arc::new(PortDescriptor::unsecure(8080, coll.clone())),
-            desc_tls: Arc::new(PortDescriptor::new(8443, coll)),
-            conns: Default::default(),
-        };
-        let mut out = Vec::new();
-        for r in &reqs {
-            out.push(client.exchange(r).await?.x());
+        let desc_plain = Arc::new(PortDescriptor::unsecure(8080, coll.clone()));
+        let desc_tls = Arc::new(PortDescriptor::new(8443, coll));
+        let mut tasks = Vec::new();
+        for reqs in all_reqs {
+            let mut client = Client { desc_plain: desc_plain.clone(), desc_tls: desc_tls.clone(), conns: Default::default() };
+            tasks.push(tokio::spawn(async move {
+                let mut out = Vec::new();
+                for r in &reqs {
+                    out.push(client.exchange(r).await?.x());
+                }
+                Ok::<_, Trouble>(out)
+            }));
         }
-        Ok(out)
+        let mut outs = Vec::new();
+        for t in tasks {
+            outs.push(X::L(t.await.map_err(trouble("client task"))??));
+        }
+        Ok(outs)
     });
     let _ = std::fs::remove_dir_all(&dir);
     match out {
-        Ok(out) => X::L(vec![X::N(0), X::L(out)]),
+        Ok(mut outs) if !clients => X::L(vec![X::N(0), outs.remove(0)]),
+        Ok(outs) => X::L(vec![X::N(0), X::L(outs)]),
         Err(Trouble(what)) if what == "OOD" => ood(),
         Err(Trouble(what)) => X::L(vec![X::N(93), X::b(what)]),
     }
@@ -749,7 +772,8 @@ fn wire(x: &X) -> X {
 pub fn dispatch(comp: &str, x: &X) -> Option<X> {
     Some(match comp {
         "hosts.lookup" | "hosts.lookup_v0" => lookup(x),
-        "hosts.wire" => wire(x),
+        "hosts.wire" => wire(x, false),
+        "hosts.wire2" => wire(x, true),
         _ => return None,
     })
 }
